@@ -1092,6 +1092,38 @@ pub fn c19_cases(tier: Tier) -> Vec<C19Case> {
             push("pattern x logos item".into(), format!("#[logos({})] enum T {{ #[regex(\"{}\")] A }}", l.text, p.text), p.must_reject.or(l.must_reject));
         }
     }
+    // the TEXT of a pattern inside the diagnostics: every reason that prints a pattern x sources of
+    // every byte length in a window x every alignment of 2-, 3- and 4-byte characters (front padding
+    // 0..3), plus characters that mean something to format strings, string literals and proc-macro
+    // token printing. A diagnostic must be produced for each; the derive must not panic on any.
+    let (lo, hi) = if tier == Tier::Thorough { (8usize, 420usize) } else { (60, 150) };
+    let words = ["así", "€uro", "😊k", "mañana", "señor", "x", "\\{y\\}", "q\\\"r", "%s", "ÿ", "año"];
+    for len in lo..=hi {
+        for pad in 0..4usize {
+            let mut body = "z".repeat(pad);
+            let mut i = 0;
+            while body.len() < len {
+                if !body.is_empty() {
+                    body.push('|');
+                }
+                body.push_str(words[(i + len) % words.len()]);
+                i += 1;
+            }
+            // plain text of the same size without metacharacters, for #[token]
+            let plain: String = body.chars().filter(|c| !"|\\{}\"%".contains(*c)).collect();
+            push("diagnostic text: nullable regex".into(), format!("enum T {{ #[regex(\"(?:{body})*\")] A }}"), Some("nullable"));
+            push("diagnostic text: nullable skip".into(), format!("#[logos(skip \"(?:{body})*\")] enum T {{ #[token(\"0\")] Z }}"), Some("nullable"));
+            push("diagnostic text: regex conflict".into(), format!("enum T {{ #[regex(\"(?:{body})\")] A, #[regex(\"(?:{body})\")] B }}"), Some("equal-priority overlap"));
+            push("diagnostic text: token conflict".into(), format!("enum T {{ #[token(\"{plain}\")] A, #[token(\"{plain}\")] B }}"), Some("equal-priority overlap"));
+            push("diagnostic text: token vs skip conflict".into(), format!("#[logos(skip(\"(?:{body})\", priority = 7))] enum T {{ #[regex(\"(?:{body})\", priority = 7)] A }}"), Some("equal-priority overlap"));
+            push("diagnostic text: non-UTF-8".into(), format!("enum T {{ #[regex(\"(?:{body})(?-u:\\\\xff)\")] A }}"), Some("not UTF-8"));
+            push("diagnostic text: greedy".into(), format!("enum T {{ #[regex(\"(?:{body}).*\")] A }}"), Some("greedy dot"));
+            push("diagnostic text: undefined subpattern".into(), format!("enum T {{ #[regex(\"(?:{body})(?&nope)\")] A }}"), Some("undefined subpattern"));
+            push("diagnostic text: unparsable".into(), format!("enum T {{ #[regex(\"(?:{body})(\")] A }}"), Some("unparsable"));
+            push("diagnostic text: nullable subpattern user".into(), format!("#[logos(subpattern s = \"(?:{body})?\")] enum T {{ #[regex(\"(?&s)\")] A }}"), Some("nullable"));
+            push("diagnostic text: accepted control".into(), format!("enum T {{ #[regex(\"(?:{body})\")] A, #[token(\"0{plain}\")] B }}"), None);
+        }
+    }
     v
 }
 
